@@ -130,6 +130,37 @@ def compprog_contracts():
     }
 
 
+FCWB_SPEC = r'''
+// ---- from_children_w_bytecode (list / map literals): the identifiers of ALL children, folded only when ALL are constant ----------
+pub open spec fn all_details(ch: Seq<CompiledProg>, n: int) -> Set<Seq<char>> decreases n { if n <= 0 { Set::empty() } else { all_details(ch, n - 1) + ch[n - 1].details@ } }
+pub open spec fn all_consts(ch: Seq<CompiledProg>, n: int) -> bool decreases n { if n <= 0 { true } else { all_consts(ch, n - 1) && node_view(ch[n - 1].inner) is Const } }
+pub open spec fn flat_code(ch: Seq<CompiledProg>, n: int) -> Seq<PreResolvedCodePoint> decreases n { if n <= 0 { Seq::empty() } else { flat_code(ch, n - 1) + code_of(node_view(ch[n - 1].inner)) } }
+/// R2m: `children.into_iter().map(|c| c.const_val()).collect()`
+#[verifier::external_body] pub fn s_const_vals(children: Vec<CompiledProg>) -> (r: Vec<CelValue>)
+    requires all_consts(children@, children@.len() as int)
+    ensures r@.len() == children@.len(), forall|i: int| 0 <= i < r@.len() ==> node_view(children@[i].inner) == SNode::Const(#[trigger] r@[i]) { unimplemented!() }
+/// R2m: `children.into_iter().map(|c| c.inner.into_bytecode().into_iter()).flatten()`
+#[verifier::external_body] pub fn s_flat_code(children: Vec<CompiledProg>) -> (r: SeqIter) ensures points_of(r) == flat_code(children@, children@.len() as int) { unimplemented!() }
+impl Clone for ProgramDetails { #[verifier::external_body] fn clone(&self) -> (r: Self) ensures r == *self { unimplemented!() } }
+'''
+
+FCWB = A(ret='r',
+         requires=[('resolver_total', 'forall|v: Vec<CelValue>| call_requires(resolve, (v,))')],
+         ensures=[('identifiers_of_every_child', 'r.details@ == all_details(children@, children@.len() as int)', ('C17',)),
+                  ('folded_only_when_every_child_is_constant_and_only_with_the_resolver', '''if all_consts(children@, children@.len() as int) {
+                        exists|vals: Vec<CelValue>, res: CelValue| call_ensures(resolve, (vals,), res) && node_view(r.inner) == SNode::Const(res) && vals@.len() == children@.len()
+                            && (forall|i: int| 0 <= i < vals@.len() ==> node_view(children@[i].inner) == SNode::Const(#[trigger] vals@[i]))
+                    } else {
+                        node_view(r.inner) == SNode::Code(flat_code(children@, children@.len() as int) + bytecode@.map_values(|b: ByteCode| PreResolvedCodePoint::Bytecode(b)))
+                    }''', ('C09', 'C10', 'C06'))],
+         loops={0: dict(ghost='it', invariant=[('identifiers_so_far', 'details@ == all_details(children@, it.index@ as int) && all_const == all_consts(children@, it.index@ as int)')])},
+         mcalls=MC,
+         rewrites=[('all_const &= c.is_const();', 'all_const = all_const && c.is_const();', 'R7: Verus has no `&=` on bool; is_const is pure, so the short-circuit form is equivalent'),
+                   ('children.into_iter().map(|c| c.const_val()).collect()', 's_const_vals(children)', 'R2m: iterator map/collect of the constant values -> trampoline (assumed std behaviour: element-wise, in order)'),
+                   ('children .into_iter() .map(|c| c.inner.into_bytecode().into_iter()) .flatten()', 's_flat_code(children)', 'R2m: iterator map/flatten of the children code -> trampoline (assumed std behaviour: concatenation in order)'),
+                   MAP_INTO],
+         props=('C17', 'C09', 'C10', 'C06', 'C01'))
+
 NODEVALUE = {
     'is_const': A(ret='r', ensures=[('def', 'r == (node_view(*self) is Const)')], props=('C09', 'C01')),
     'into_bytecode': A(ret='r', ensures=[('a_constant_becomes_a_push', 'r@ == code_of(node_view(self))')], mcalls=MC, props=('C10', 'C09', 'C01')),
